@@ -121,11 +121,15 @@ def run(ctx):
         batches += [list(p) for p in itertools.permutations(range(n), 3) if ctx.tier == 'thorough' or sum(p) % 11 == 0]
         batches += [list(range(n)), list(range(n))[::-1], [0, 6, 0, 6], [2, 2]]
         batches += collide + collide      # twice: they land on different channels / formats
+        long_batch = [(3 * j + 1) % n for j in range(19)]
+        batches += [long_batch, long_batch[::-1], long_batch, long_batch]       # many more inputs than cores (-c 1 / 2 among them)
         jobs, metas = [], []
         for bi, batch in enumerate(batches):
             channel = ['positional', 'list', 'sigfile', 'positional'][bi % 4]
             fmt = ['csv', 'json', 'archive', 'csv'][(bi // 4) % 4]
             cores = [1, 2, 5, 16][bi % 4 if bi % 3 else (bi // 3) % 4]
+            if len(batch) >= 19:
+                channel, cores = ['positional', 'list'][bi % 2], [1, 1, 2, 1][bi % 4]
             progress = bi % 2 == 0
             out = os.path.join(tmp, f'out{bi}')
             args = ['-d', dbdir, 'query', '-f', fmt, '-o', out, '-c', str(cores)] + (['--progress'] if progress else ['--no-progress'])
@@ -202,7 +206,7 @@ def run(ctx):
         ctx.add_samples([dict(family='query-batches', meta={k: v for k, v in metas[9].items() if k not in ('labels', 'out')}, rows=recs[9]['rows'][:1])], limit=1)
         ctx.rule_parts.append('[query-batches] a synthetic database (9 genomes, signature file order != genome order, identical reference genomes, '
                               'threshold-less and unreportable taxa, names with commas/quotes/newlines) and 7 query genomes (one under two names): every '
-                              'single genome, ordered pairs and triples, the full batch in both orders, repeated inputs, different genomes with colliding labels x channel {positional, list file + base dir, signature file written by `gambit signatures create`, list file + '
+                              'single genome, ordered pairs and triples, the full batch in both orders, a 19-input batch (more inputs than 16 x cores for -c 1), repeated inputs, different genomes with colliding labels x channel {positional, list file + base dir, signature file written by `gambit signatures create`, list file + '
                               'base dir, pre-computed signature file} x gzip (single- and multi-member) / FASTA extensions x -c {1,2,5,16} x progress on/off x format {csv, json, '
                               'archive} through the real command line, plus query_parse with chunk sizes {1,2,3,None,1000} and thread/process pools; '
                               'every row is recomputed by TLC from the sequences of that genome alone; non-trivial = batch of >= 2')
@@ -222,6 +226,4 @@ def run(ctx):
                         'thresholds are float32-exact so that float32/double comparison semantics cannot differ']
 
 
-def replay(ctx, scen):
-    print('C08 batches are re-run by the check itself; run ./check C08 --tier quick')
-    return True
+replay = core.RERUN
